@@ -41,7 +41,12 @@ Stmts(d, j) ==
    \* match arms bind a / b only inside the arm
    SLet(PId("b"), T8, EMatch(V("w"), <<Arm(MLeft("a", T8), V("a")), Arm(MRight("b", T8), V("a"))>>)),
    SLet(PTup(<<PId("a"), PId("b")>>), TP,
-        EMatch(V("o"), <<Arm(MSome("b", T8), ETuple(<<V("b"), V("a")>>)), Arm(MNone, ETuple(<<V("b"), V("b")>>))>>))}
+        EMatch(V("o"), <<Arm(MSome("b", T8), ETuple(<<V("b"), V("a")>>)), Arm(MNone, ETuple(<<V("b"), V("b")>>))>>)),
+   \* the variable of one arm (bound at another type) must not be visible in the sibling arm, which reads the outer a
+   SLet(PId("b"), T8, EMatch(V("w2"), <<Arm(MLeft("a", TU(16)), ECall(CJet("leftmost_16_8"), <<V("a")>>)),
+                                        Arm(MRight("b", T8), V("a"))>>)),
+   SLet(PId("a"), T8, EMatch(V("w2"), <<Arm(MRight("b", T8), V("b")),
+                                        Arm(MLeft("b", TU(16)), ECall(CJet("rightmost_16_8"), <<V("b")>>))>>))}
 
 Defs == <<IFn("pa", <<Param("b", T8), Param("a", T8)>>, <<TP>>, BlkE(<<>>, ETuple(<<V("a"), V("b")>>))),
           IFn("pb", <<Param("a", T8), Param("b", T8)>>, <<TP>>,
@@ -71,7 +76,10 @@ Bodies(d) == IF d = 0 THEN Probes
 ScFamilies == {[first |-> s] : s \in Stmts(2, 1)} \cup {[first |-> [k |-> "probe"]]}
 
 WDecls == <<<<"W", TEither(T8, T8)>>, <<"O", TOpt(T8)>>, <<"EXP", TP>>>>
+\* w2: Left(300) when W is a Left, Right(payload of W) otherwise (an Either whose two sides have different types)
+TW2 == TEither(TU(16), T8)
 Pre == <<SLet(PId("w"), TEither(T8, T8), EWit("W")), SLet(PId("o"), TOpt(T8), EWit("O")),
+         SLet(PId("w2"), TW2, EMatch(V("w"), <<Arm(MLeft("l", T8), ELeft(Dec(300))), Arm(MRight("r", T8), ERight(V("r")))>>)),
          SLet(PId("a"), T8, Dec(1)), SLet(PId("b"), T8, Dec(2))>>
 
 MkItems(e) == Defs \o <<Main(Blk(Pre \o <<SLet(PId("r"), TP, e), SLet(PId("x"), TP, EWit("EXP"))>> \o Obs(TP, "r", "x")))>>
@@ -81,6 +89,7 @@ ValOf(e, w, o) ==
   LET m == MainCtx(Defs \o <<Main(Blk(<<>>))>>, G0)
       C == [fns |-> m.G.fns, al |-> m.G.al, wit |-> EmptyFn, args |-> EmptyFn, env |-> DummyEnv]
       rho == ("w" :> w) @@ ("o" :> o) @@ ("a" :> VU(BitsOfNat(1, 8))) @@ ("b" :> VU(BitsOfNat(2, 8)))
+             @@ ("w2" :> IF w.k = "vleft" THEN VLeft(VU(BitsOfNat(300, 16))) ELSE VRight(w.v))
   IN Ev(e, TP, rho, C)
 
 U8(n) == VU(BitsOfNat(n, 8))
